@@ -313,7 +313,10 @@ if validate_rfc3339:
         return is_datetime("1970-01-01T" + instance)
 
 
-@_checks_drafts(name="regex", raises=re.error)
+@_checks_drafts(
+    name="regex",
+    raises=(re.error, OverflowError, RecursionError),
+)
 def is_regex(instance):
     if not isinstance(instance, str):
         return True
